@@ -376,6 +376,28 @@ class Engine:
 
     def ev(s, node, st, out):
         m = getattr(s, "ev_" + type(node).__name__, None)
+        if s.cur is not None and getattr(s.cur, "abstract_exprs", False):
+            # typestate mode (DESIGN 5/C20): an expression outside the subset is
+            # abstracted to an opaque value that may raise, PROVIDED it cannot touch
+            # a tracked handle (it does not mention any variable bound to a file).
+            mark = (len(out), len(s.goals))
+            try:
+                if m is None:
+                    raise OutOfSubset("expression %s" % type(node).__name__)
+                snap = st.fork()
+                return m(node, st, out)
+            except OutOfSubset as e:
+                if m is not None:
+                    st.__dict__.update(snap.__dict__)
+                del out[mark[0]:]
+                del s.goals[mark[1]:]
+                names = {x.id for x in ast.walk(node) if isinstance(x, ast.Name)}
+                tracked = {k for k, v in st.env.items() if isinstance(v, VFile)} | set(getattr(s.cur, "handle_names", ()))
+                if names & tracked:
+                    raise OutOfSubset("cannot abstract an expression that mentions a file handle (%s): %s" % (sorted(names & tracked), e))
+                s.notes.append("abstracted expression at %s line %s (%s)" % (s.cur_module, getattr(node, "lineno", "?"), e))
+                s.may_raise_any(st, out, node, "abstracted expression")
+                return [(st, VObj(z3.Const(fresh_name("abs"), PyObj)))]
         if m is None:
             raise OutOfSubset("expression %s at line %s" % (type(node).__name__, getattr(node, "lineno", "?")))
         return m(node, st, out)
@@ -410,6 +432,8 @@ class Engine:
                 "io", "os", "codecs", "sys", "traceback", "textwrap", "urllib", "logging"}
         if name in mods:
             return VExt("mod:" + name)
+        if name.startswith("__verif_"):
+            return VExt("lib:" + name)
         if name in ("deepcopy", "StringIO", "OrderedDict", "Sequence", "basestring",
                     "sow_regex", "URL_REGEXP"):
             return VExt("lib:" + name)
@@ -678,6 +702,11 @@ class Engine:
                 return []
             raise OutOfSubset("attribute %s of %s" % (attr, v.cls))
         if isinstance(v, VExt):
+            if v.name in ("mod:defaults",):
+                try:
+                    return [(st, lift_const(s.module_const("defaults", attr)))]
+                except OutOfSubset:
+                    pass
             return [(st, VExt(v.name + "." + attr))]
         if isinstance(v, (VInt, VBool, VNone)):
             probe = {VInt: 0, VBool: True, VNone: None}[type(v)]
